@@ -11,3 +11,5 @@ import NpsVerif.Props.C16
 import NpsVerif.Props.C07
 import NpsVerif.Props.C08
 import NpsVerif.Props.C09
+import NpsVerif.Props.C11
+import NpsVerif.Props.C12
